@@ -303,7 +303,8 @@ FAMILIES = {"pfam2go": Pfam2GoFamily, "rules": RulesFamily, "sideload": Sideload
 
 def objects(tier):
     out = []
-    layouts = list(K.LAYOUTS)
+    # (the layouts made for text that does not fit on a GenBank line have other gene names / fewer genes than the hit tables here use)
+    layouts = [layout for layout in K.LAYOUTS if layout not in ("long", "longnames")]
     for circ in (False, True):
         for layout in layouts:
             if layout in K.CIRCULAR_ONLY and not circ:
